@@ -620,7 +620,7 @@ fn c04(seed: u64, cases: usize, _model_path: &str) -> serde_json::Value {
     // phases in which EVERY payload bit is covered by a check (MAC, commitment opening, hash comparison, echo broadcast): an accepted flip there is
     // unverified correlated randomness even when the output happens to be right. `fashare comm` is strict only in its third component (cm), because
     // exactly one of c0/c1 is legitimately never opened. The OT messages, `haand` (the receiver uses H0 or H1 of a pair, depending on its own bit) and `flaand` carry values the receiver may legitimately never use.
-    let strict = |phase: &str, pos: usize| -> bool { match phase { "RNG comm" | "RNG ver" | "fabitn" | "fashare ver" | "fashare di_bi" | "flaand comm" | "flaand hash" | "dvalue" | "faand" => true, "fashare comm" => (pos - 8) % 96 >= 64, _ => false } };
+    let strict = |phase: &str, pos: usize| -> bool { match phase { "KOS_OT_x_t0_t1" /* the receiver's check values: every bit enters `check != (t0, t1)` */ | "RNG comm" | "RNG ver" | "fabitn" | "fashare ver" | "fashare di_bi" | "flaand comm" | "flaand hash" | "dvalue" | "faand" => true, "fashare comm" => (pos - 8) % 96 >= 64, _ => false } };
     // position of the flipped bit: usize::MAX = seeded random, usize::MAX - 1 = last byte of the message, otherwise the absolute byte offset
     // (8 = first payload byte; the two `fashare comm` offsets hit the third commitment of the first and of the last entry).
     const RANDOM: usize = usize::MAX; const LAST: usize = usize::MAX - 1;
@@ -768,6 +768,22 @@ fn c04(seed: u64, cases: usize, _model_path: &str) -> serde_json::Value {
         let undetected: Vec<usize> = honest.iter().cloned().filter(|p| !matches!(&run.outs[*p], Out::Err(e) if e.contains("InconsistentBroadcast") || e.contains("Preprocessing") && !e.contains("ChannelErr"))).collect();
         if undetected.len() == honest.len() { failures.push(json!({"witness": "C04:equivocation-undetected", "failure": format!("party {adv} sent party {victim} its aShare commitments with c0 and c1 swapped (the other party got them in order) and no honest party noticed: {:?}", run.outs.iter().map(short).collect::<Vec<_>>()), "case": {"n": n, "adversary": adv, "victim": victim}})); }
     } }
+    // ---- (a7) the OTHER committed value: in the third aShare round the peer opens d0 ^ delta where it should open d0 (or vice versa). The value matches one
+    // of its two commitments, so only the comparison with the MACs the others hold (`xor_xk_macs != di_bi`) can reject it. (Found by disabling
+    // that comparison in the self-mutation run: no other class noticed.)
+    for (n, victim) in [(2usize, 0usize), (2, 1), (3, 0)] { let adv = (victim + 1) % n; let c = mk_circ(n);
+        let args: Vec<PartyArgs> = (0..n).map(|p| PartyArgs { inputs: vec![r.bool()], p_eval: 0, p_own: p, p_out: (0..n).collect(), tmp_dir: None }).collect();
+        let dl: std::rc::Rc<std::cell::Cell<u128>> = Default::default(); let dl2 = dl.clone();
+        polytune::verif::set_sink(Some(Box::new(move |k, p, v| if k == "delta" && p == adv { dl2.set(v[0]); })));
+        let hit = std::rc::Rc::new(std::cell::Cell::new(false)); let (hit2, dl3) = (hit.clone(), dl.clone());
+        let m: exec::Mutator = Box::new(move |from, _to, p, k, d| { if from != adv || p != "fashare di_bi" || k != 0 || dl3.get() == 0 { return Some(d); }
+            let mut v: Vec<u128> = de(&d); v[0] ^= dl3.get(); let last = v.len() - 1; v[last] ^= dl3.get(); hit2.set(true); Some(ser(&v)) });
+        let run = exec::run(&c, &args, &RunCfg { cap: 1, sched: Sched::RoundRobin, keep_payloads: false }, Some(m)); execs += 1; polytune::verif::set_sink(None);
+        if !hit.get() { continue; }
+        let o = &run.outs[victim]; *dist.entry("other-committed-value:fashare di_bi".into()).or_default() += 1; distinct.insert(format!("other-committed/{n}/{victim}"));
+        let pre_err = match o { Out::Err(e) => e.contains("WrongMAC") || e.contains("Commitment") || e.contains("InconsistentBroadcast"), _ => false };
+        if !pre_err { failures.push(json!({"witness": "C04:accepted-other-committed-value", "failure": format!("the peer opened the other one of its two committed aShare check values (first and last position) and the victim did not reject it: {}", short(o)), "case": {"n": n, "victim": victim, "adversary": adv}})); }
+    }
     // ---- (b) ordering under many schedules
     let rounds = [("RNG comm", "RNG ver"), ("fashare comm", "fashare ver"), ("fashare comm", "fashare di_bi"), ("flaand comm", "flaand hash")];
     for case in 0..cases { let n = r.range(2, 4) as usize; let c = mk_circ(n);
